@@ -76,7 +76,8 @@ var (
 			return r == lexer.ReturnRule
 		},
 		"IsElided": func(r lexer.Rule) bool {
-			return len(r.Name) > 0 && unicode.IsLower(rune(r.Name[0]))
+			first, _ := utf8.DecodeRuneInString(r.Name) // The first character, not the first byte.
+			return r.Name != "" && unicode.IsLower(first)
 		},
 		"OrderRules": orderRules,
 		"HaveBackrefs": func(def *lexer.StatefulDefinition, state string) bool {
